@@ -20,7 +20,14 @@ ALLOWED_AXIOMS = {
     "ClassicalDedekindReals.sig_not_dec",
     "FunctionalExtensionality.functional_extensionality_dep",
     "Classical_Prop.classic",
+    # the standard library's own specification of the primitive binary64 comparisons (Floats/FloatAxioms.v), used only
+    # by the theorems that instantiate the order laws at Coq's `float` (Proofs/CmpOrdFloat.v)
+    "FloatAxioms.eqb_spec",
+    "FloatAxioms.ltb_spec",
+    "FloatAxioms.leb_spec",
 }
+# primitive types / operations that `Print Assumptions` lists next to axioms ("native int/float primitives are not yours")
+PRIMITIVE_PREFIXES = ("PrimFloat.", "PrimInt63.", "PrimArray.", "Uint63.", "Sint63.")
 FORBIDDEN = re.compile(
     r"\b(Admitted|admit|Axiom|Axioms|Parameter|Parameters|Conjecture|Conjectures|Admit Obligations|"
     r"Unset Guard Checking|Unset Positivity Checking|Unset Universe Checking|bypass_check|"
@@ -118,7 +125,8 @@ def print_assumptions(prop, thms, rundir):
         if cur is None: continue
         m = re.match(r"^([A-Za-z_][A-Za-z0-9_.']*)\s*(:|$)", line)
         if m and not line.startswith(" ") and m.group(1) not in ("Axioms", "Closed"):
-            res[cur].append(m.group(1))
+            if not m.group(1).startswith(PRIMITIVE_PREFIXES):
+                res[cur].append(m.group(1))
     return res, out
 
 def requested_tier_is_thorough(tier, only):
